@@ -18,13 +18,21 @@ import hgxv
 
 RULE = ("(a) generate_motifs(3) and generate_motifs(4) compared IN FULL with the model's tables (classes, mapping, "
         "labeling keys, _is_connected on all 16 / 2048 labelled patterns); (b) sessions of 3-4 related Hypergraph "
-        "instances over ONE label universe (4-8 nodes from a sparse integer window, also negative labels; 2-16 "
+        "instances over ONE label universe (4-8 integer labels of every magnitude and every mixture of magnitudes: "
+        "session i takes them from recipe i mod 16 - small; small next to [2**63, 2**64); x next to -x; both sides of "
+        "2**63; around 2**53 and 2**24; beyond 2**64 and around 2**100 / 2**200; x next to x + k*2**32; negative next to "
+        "[2**63, 2**64); [2**63, 2**64) alone; x next to x + k*2**64; small, huge and around -2**63 / -2**64; all 15 "
+        "bands; around 2**63, -2**63 and 2**31 / 2**32; x next to x + k*(2**61 - 1) (equal hashes); small, int64 top, "
+        "uint64 and beyond; equal hashes and x next to -x - every band of the recipe present, random shares, whole collision groups of the wrap / sign "
+        "/ hash families; every label a new int object per occurrence; the third hypergraph of every session is built "
+        "from numpy integer scalars (session i: widest / any fitting type / alternating with Python ints from "
+        "occurrence to occurrence; labels beyond 64 bits stay Python ints); 2-16 "
         "hyperedges of size 1-6, nested and overlapping hyperedges injected; the next instance is derived from the "
         "previous one by dissolving a hyperedge into pairs / facets on the same nodes, fusing a connected node set "
         "into one hyperedge, permuting the labels inside the universe, rewiring one hyperedge, exchanging a node between two hyperedges (sizes and degrees kept), random churn, or "
         "nothing), all analysed in this one process, orders 3 and 4: compute_motifs(h, n, 0)['observed'] and the "
         "three passes (tallies, visited sets) against the model and against exhaustive enumeration of all n-subsets; "
-        "the same hypergraph relabelled into fresh labels and rebuilt in 5 random insertion orders (node order "
+        "the same hypergraph relabelled into fresh labels of the session's pool (60 integers of the same bands) and rebuilt in 5 random insertion orders (node order "
         "inside hyperedges shuffled too); the census of one long-lived Hypergraph object that is edited in place "
         "(remove_edge / add_edge) from instance to instance; (c) sessions of DirectedHypergraph instances (4-7 nodes, "
         "disjoint non-empty sides, size 2-6) with compute_directed_motifs likewise (canonical keys, relabelling, "
@@ -36,11 +44,16 @@ RULE = ("(a) generate_motifs(3) and generate_motifs(4) compared IN FULL with the
         "hypergraph of the first two scripts and of 85% of the others holds hyperedges of size 3 and 4 (the first two "
         "scripts: both orders, one order in a row, 3 first / 4 first; in these and in half of the others the nodes of "
         "that hyperedge are also joined by a path of pairs), the first census is repeated at the end, "
-        "objects kept, rebuilt or edited in place, one null-model round somewhere or in the very first call); every "
+        "objects kept, rebuilt or edited in place, one null-model round somewhere or in the very first call; label recipes "
+        "as in (b): scripts 0-4 = small next to [2**63, 2**64) / small, int64 top, uint64 and beyond / all bands / "
+        "negative next to [2**63, 2**64) / both sides of 2**63, every third hypergraph drawn in a script from numpy "
+        "scalars); every "
         "'observed' list is judged outside that process by exhaustive enumeration and by the model. "
         "A case is distinct by (kind, order, canonical hyperedge list); non-trivial when at least 3 classes have a "
         "non-zero count")
-ASSUMPTIONS = ["integer node labels; hyperedge sizes 1..6 (the property's quantifier); labels reach the model as ranks",
+ASSUMPTIONS = ["integer node labels (Python ints of any magnitude; numpy integer scalars are read as the integers they "
+               "hold); hyperedge sizes 1..6 (the property's quantifier); labels reach the model and the enumeration "
+               "oracle as ranks / Python ints, so both are exact for every magnitude",
                "directed hyperedges have disjoint non-empty source and target sets (the property's quantifier)",
                "most order-4 steps run with hypergraphx.motifs.utils.generate_motifs memoised by the harness for the "
                "duration of ONE step (the function itself is compared in full with the model once per run and a few "
@@ -330,12 +343,183 @@ class Mute:
         return self._ctx.time_left()
 
 
-def window(i):
-    """first label of session i's window: 40 labels for the hypergraphs, 20 more for the `fresh` relabelling;
-    windows of different sessions are disjoint, every fourth one is negative, every eighth beyond 64 bits"""
-    if i % 8 == 5:
-        return (1 << 65) + 61 * i
-    return -61 * i if i % 4 == 3 else 61 * i
+# ------------------------------------------------------------------------------------------
+# label universes: "integer labels" means every magnitude, and every MIXTURE of magnitudes inside one hypergraph.
+# A band is a family of integers that some lossy representation treats specially (a machine word, a float mantissa, a
+# hash modulus): a census that sends node subsets through such a representation (an array, a cast, a hash) is exact
+# on some bands and on some mixtures only.  Enumeration and the model see labels as ranks: their cost and their
+# answers do not depend on the magnitudes.
+
+def _around(c, lo, hi):
+    return [c + d for d in range(lo, hi)]
+
+
+M61 = (1 << 61) - 1          # CPython's hash modulus for integers
+BANDS = {
+    "small": list(range(0, 100)),
+    "neg": list(range(-100, 0)),
+    "f32": _around(1 << 24, -30, 60),                                                  # float32 mantissa
+    "i32": _around(1 << 31, -20, 20) + _around(1 << 32, -20, 20) + _around(-(1 << 31), -20, 20),
+    "f64": _around(1 << 53, -20, 40) + _around(-(1 << 53), -30, 10),                   # float64 mantissa
+    "m61": _around(M61, -20, 40) + _around(1 << 60, 0, 30),
+    "i63": _around(1 << 63, -60, 0),                                                   # top of int64
+    "u64": _around(1 << 63, 0, 40) + _around(1 << 64, -40, 0)                           # uint64 only
+           + [(1 << 63) + (k << 40) + 2 * k + 1 for k in range(1, 30)],
+    "o64": _around(1 << 64, 0, 40) + _around(1 << 65, 0, 30),                           # no machine word
+    "huge": _around(1 << 100, 0, 30) + _around(1 << 200, 0, 30) + _around(-(1 << 100), -30, 0),
+    "n63": _around(-(1 << 63), -30, 30) + _around(-(1 << 64), -20, 20),
+    # families whose members collide under a wrap-around / sign / hash reduction
+    "wrap32": [x + (k << 32) for x in range(12) for k in (0, 1, 2, -1)],
+    "wrap64": [x + (k << 64) for x in range(12) for k in (0, 1, 2, -1)],
+    "mirror": [s * x for x in range(1, 31) for s in (1, -1)],
+    "hashmod": [x + k * M61 for x in range(-2, 10) for k in range(4)],                  # hash(-1) == hash(-2) too
+}
+ALL_BANDS = sorted(BANDS)
+RECIPES = [
+    ["small"],
+    ["small", "u64"],                  # a label of [2**63, 2**64) next to int64-range labels: numpy makes float64 of it
+    ["mirror"],                        # negative next to positive, x next to -x
+    ["i63", "u64"],
+    ["f64", "f32"],
+    ["o64", "huge"],
+    ["wrap32"],                        # small next to 2**32 + small, 2**33 + small, -2**32 + small
+    ["neg", "u64"],
+    ["u64"],
+    ["wrap64"],                        # small next to 2**64 + small, 2**65 + small, -2**64 + small
+    ["small", "huge", "n63"],
+    ALL_BANDS,
+    ["i63", "n63", "i32"],
+    ["hashmod"],                       # -2 .. 9 next to the same plus multiples of 2**61 - 1
+    ["small", "i63", "u64", "o64"],
+    ["hashmod", "mirror"],
+]
+PRISTINE_RECIPES = [1, 14, 11, 7, 3, 0, 5, 9, 6, 12, 2, 13, 10, 4, 8, 15]
+
+
+def recipe_name(recipe):
+    bands = RECIPES[recipe % len(RECIPES)]
+    return "all_bands" if bands is ALL_BANDS else "+".join(bands)
+
+
+FAMILY_KEY = {"mirror": abs, "wrap32": lambda x: x % (1 << 32), "wrap64": lambda x: x % (1 << 64), "hashmod": hash}
+
+
+def universe(seed, tag, recipe, n):
+    """the labels of one generated hypergraph and the label pool of its session: -> (labels, pool).
+    labels = n distinct integers (ascending) from the bands of RECIPES[recipe]: every band of the recipe is present
+    when n allows it, the shares are random (one label of a band next to n-1 of another, or half / half); from a
+    collision family whole collision groups are taken (x next to -x, x next to x + 2**32 ...), so that colliding
+    labels meet inside one hyperedge / one node subset.  pool = 60 integers of the same bands that contain the labels:
+    targets of the `fresh` relabelling.
+    Own PRNG; the generators draw the SHAPE of a hypergraph over positions 0..39 from the main stream and the
+    positions used are mapped to `labels` in ascending order, so the shapes explored for a seed do not depend on the
+    recipes (and are the ones explored before label universes existed)."""
+    import random
+    r = random.Random(f"C11 labels {seed} {tag} {recipe}")
+    bands = list(RECIPES[recipe % len(RECIPES)])
+    r.shuffle(bands)
+    used = bands[:n]
+    shares = [1] * len(used)
+    for _ in range(n - len(used)):
+        lone = [k for k, b in enumerate(used) if b in FAMILY_KEY and shares[k] < 2]     # a family: at least a pair
+        shares[lone[0] if lone else r.randrange(len(used))] += 1
+    labels = set()
+    for b, k in zip(used, shares):
+        cand = [x for x in BANDS[b] if x not in labels]
+        if b in FAMILY_KEY:
+            groups = {}
+            for x in cand:
+                groups.setdefault(FAMILY_KEY[b](x), []).append(x)
+            groups = list(groups.values())
+            r.shuffle(groups)
+            take = []
+            for g in groups:
+                r.shuffle(g)
+                take.extend(g[:r.randint(2, 3)])
+                if len(take) >= k:
+                    break
+            labels.update(take[:k])
+        else:
+            labels.update(r.sample(cand, k))
+    pool = set(labels)
+    rest = sorted({x for b in bands for x in BANDS[b]} - pool)
+    while len(labels) < n:                      # (not reached with the bands above: every band has 48+ members)
+        labels.add(rest.pop(r.randrange(len(rest))))
+    pool.update(r.sample(rest, min(len(rest), 60 - len(pool))))
+    return sorted(labels), sorted(pool | labels)
+
+
+def place(labels0, edges0, labels):
+    """the shape (labels0 ascending, edges0) carried over to `labels` (ascending): same ranks"""
+    m = dict(zip(labels0, labels))
+
+    def f(e):
+        return tuple(f(x) for x in e) if isinstance(e, tuple) else m[e]
+    return [f(e) for e in edges0]
+
+
+NP_KINDS = [("int8", -(1 << 7), 1 << 7), ("uint8", 0, 1 << 8), ("int16", -(1 << 15), 1 << 15), ("uint16", 0, 1 << 16),
+            ("int32", -(1 << 31), 1 << 31), ("uint32", 0, 1 << 32), ("int64", -(1 << 63), 1 << 63),
+            ("uint64", 0, 1 << 64)]
+
+
+def numpy_types(seed, tag, pool, style):
+    """labels as numpy integer scalars (what a user gets from an array of node ids): -> [[label, dtype name], ...] for
+    the labels of `pool` that fit a machine word; style 0: the widest fitting signed type, uint64 beyond it (what
+    np.array(list) yields column by column); 1: any fitting type; 2: like 1, a third of the labels stay Python ints"""
+    import random
+    r = random.Random(f"C11 numpy labels {seed} {tag}")
+    out = []
+    for x in pool:
+        fits = [name for name, lo, hi in NP_KINDS if lo <= x < hi]
+        if not fits or (style == 2 and r.random() < 0.34):
+            continue
+        out.append([x, ("int64" if "int64" in fits else "uint64") if style == 0 else r.choice(fits)])
+    return out
+
+
+def word_class(x):
+    """which machine representation holds the label"""
+    if -(1 << 31) <= x < (1 << 31):
+        return "int32"
+    if -(1 << 63) <= x < (1 << 63):
+        return "int64"
+    return "uint64" if 0 <= x < (1 << 64) else "beyond64"
+
+
+def count_bands(ctx, labels, word):
+    """distribution: which representations meet inside one hypergraph"""
+    mix = sorted({word_class(x) for x in labels})
+    ctx.count(f"{word}_labels:" + "+".join(mix))
+    if "uint64" in mix and len(mix) > 1:
+        ctx.count(f"{word}_cases_mixing_a_uint64_only_label_with_other_labels")
+
+
+def pyint(x):
+    """an integer label as a Python int (numpy scalars included); anything else is left as it is"""
+    import operator
+    try:
+        return operator.index(x)
+    except TypeError:
+        return x
+
+
+def typer(npmap, alternate=False):
+    """label -> the object handed to the implementation: a numpy scalar where the step says so (alternate: only at
+    every other occurrence of that label, a Python int in between), else an equal Python int that is a NEW object
+    on every call (no identity shared between two occurrences of a label)"""
+    conv, seen = {}, {}
+    if npmap:
+        import numpy as np
+        conv = {int(l): getattr(np, d)(int(l)) for l, d in npmap}
+
+    def f(x):
+        if x in conv:
+            seen[x] = seen.get(x, 0) + 1
+            if not alternate or seen[x] % 2:
+                return conv[x]
+        return int(str(x))
+    return f
 
 
 def null_model_round(ctx, case, obs_fn, h, n, obs, word):
@@ -385,9 +569,10 @@ def live_census(sess, kind, canon, n, secs=8):
 # ------------------------------------------------------------------------------------------
 # (b) undirected census
 
-def gen_hg(rng, base=0):
+def gen_hg(rng, src=range(40)):
+    """src: the 40 labels (ascending) the nodes are taken from"""
     n = rng.randint(4, 8)
-    labels = sorted(rng.sample(range(base, base + 40), n))
+    labels = sorted(rng.sample(src, n))
     edges = []
     k = rng.randint(2, 16)
     style = rng.random()
@@ -555,7 +740,16 @@ def nz(d):
 
 
 def node_sets(vis):
-    return sorted(tuple(sorted(s)) for s in vis)
+    return sorted(tuple(sorted(pyint(x) for x in s)) for s in vis)
+
+
+def fresh_targets(case, r, k):
+    """k targets of the `fresh` relabelling: from the session's pool (older cases: the window at `base`)"""
+    pool = case.get("pool")
+    if pool is None:
+        base = case.get("base", 0)
+        pool = range(base, base + 60)
+    return r.sample(pool, k)
 
 
 def impl_passes(Eup, n):
@@ -591,15 +785,22 @@ def impl_passes(Eup, n):
 def check_hg(ctx, drv, sess, case):
     import random
     n, labels, edges, perm_seed = case["n"], case["labels"], case["edges"], case["perm_seed"]
-    base = case.get("base", 0)
-    st, h = guarded(build, edges)
+    ty = typer(case.get("np"), case.get("np_alt"))
+
+    def typed(es):
+        return [tuple(ty(x) for x in e) for e in es]
+    st, h = guarded(build, typed(edges))
     if st != "ok":
         ctx.violation(case, "Hypergraph construction failed: " + h)
         return
-    st, E = guarded(lambda: [tuple(e) for e in h.get_edges()])
+    st, Eraw = guarded(lambda: [tuple(e) for e in h.get_edges()])
     if st != "ok":
-        ctx.violation(case, "Hypergraph.get_edges failed: " + E)
+        ctx.violation(case, "Hypergraph.get_edges failed: " + Eraw)
         return
+    E = [tuple(pyint(x) for x in e) for e in Eraw]       # numpy scalars -> Python ints for the oracles
+    count_bands(ctx, labels, "undirected")
+    if case.get("np"):
+        ctx.count("undirected_cases_with_numpy_integer_labels")
     key = ("u", n, tuple(sorted(tuple(sorted(e)) for e in E)))
     st, obs = observed(h, n)
     if st != "ok":
@@ -625,9 +826,9 @@ def check_hg(ctx, drv, sess, case):
         ctx.count(f"order{n}_cases_with_larger_hyperedges")
     # metamorphic oracles: relabelling, insertion order
     r = random.Random(perm_seed)
-    fresh = r.sample(range(base, base + 60), len(labels))
+    fresh = fresh_targets(case, r, len(labels))
     pi = dict(zip(labels, fresh))
-    st2, obs2 = observed(build([tuple(pi[x] for x in e) for e in edges]), n)
+    st2, obs2 = observed(build([tuple(int(str(pi[x])) for x in e) for e in edges]), n)
     if st2 != "ok" or obs2 != obs:
         ctx.violation({**case, "relabel": pi}, f"order-{n} census changes under the relabelling {pi}: "
                       + (obs2 if st2 != "ok" else str(sorted(set(nz(obs).items()) ^ set(nz(obs2).items()))[:4])))
@@ -636,7 +837,7 @@ def check_hg(ctx, drv, sess, case):
     for j in range(5):
         es = [tuple(r.sample(e, len(e))) for e in edges]
         r.shuffle(es)
-        st3, obs3 = observed(build(es), n)
+        st3, obs3 = observed(build(typed(es)), n)
         if st3 != "ok" or obs3 != obs:
             ctx.violation({**case, "order": es}, f"order-{n} census changes with the insertion order {es}: "
                           + (obs3 if st3 != "ok" else str(sorted(set(nz(obs).items()) ^ set(nz(obs3).items()))[:4])))
@@ -646,7 +847,7 @@ def check_hg(ctx, drv, sess, case):
     # the session's long-lived object, edited in place to the same content
     canon = {}
     for e in edges:
-        canon.setdefault(tuple(sorted(e)), e)
+        canon.setdefault(tuple(sorted(e)), tuple(ty(x) for x in e))
     lv = live_census(sess, "undirected", canon, n)
     if lv is None:
         ctx.count("live_object_not_editable")
@@ -661,7 +862,7 @@ def check_hg(ctx, drv, sess, case):
     # the call sequence a replay has to repeat)
     ip = None
     if case.get("passes", True):
-        ip = impl_passes([e for e in E if len(e) <= n], n)
+        ip = impl_passes([e for e in Eraw if len(e) <= n], n)
     if drv is None:
         return
     univ = sorted(set(labels) | {x for e in E for x in e})
@@ -697,9 +898,9 @@ def check_hg(ctx, drv, sess, case):
 # ------------------------------------------------------------------------------------------
 # (c) directed census
 
-def gen_dhg(rng, base=0):
+def gen_dhg(rng, src=range(40)):
     n = rng.randint(4, 7)
-    labels = sorted(rng.sample(range(base, base + 40), n))
+    labels = sorted(rng.sample(src, n))
     edges = []
     for _ in range(rng.randint(2, 12)):
         size = min(n, rng.choice([2, 2, 3, 3, 3, 4, 4, 4, 5, 6]))
@@ -927,15 +1128,22 @@ def impl_dpasses(Eup, n):
 def check_dhg(ctx, drv, sess, case):
     import random
     n, labels, edges, perm_seed = case["n"], case["labels"], case["edges"], case["perm_seed"]
-    base = case.get("base", 0)
-    st, h = guarded(dbuild, edges)
+    ty = typer(case.get("np"), case.get("np_alt"))
+
+    def typed(es):
+        return [(tuple(ty(x) for x in e[0]), tuple(ty(x) for x in e[1])) for e in es]
+    st, h = guarded(dbuild, typed(edges))
     if st != "ok":
         ctx.violation(case, "DirectedHypergraph construction failed: " + h)
         return
-    st, E = guarded(lambda: [(tuple(e[0]), tuple(e[1])) for e in h.get_edges()])
+    st, Eraw = guarded(lambda: [(tuple(e[0]), tuple(e[1])) for e in h.get_edges()])
     if st != "ok":
-        ctx.violation(case, "DirectedHypergraph.get_edges failed: " + E)
+        ctx.violation(case, "DirectedHypergraph.get_edges failed: " + Eraw)
         return
+    E = [(tuple(pyint(x) for x in e[0]), tuple(pyint(x) for x in e[1])) for e in Eraw]
+    count_bands(ctx, labels, "directed")
+    if case.get("np"):
+        ctx.count("directed_cases_with_numpy_integer_labels")
     key = ("d", n, tuple(sorted(E)))
     st, obs = dobserved(h, n)
     if st != "ok":
@@ -949,14 +1157,14 @@ def check_dhg(ctx, drv, sess, case):
             ctx.violation(case, f"reported directed pattern {k} is not the minimum of its relabellings {dcanon_key(n, k)}")
             break
     r = random.Random(perm_seed)
-    fresh = r.sample(range(base, base + 60), len(labels))
+    fresh = fresh_targets(case, r, len(labels))
     pi = dict(zip(labels, fresh))
-    st2, obs2 = dobserved(dbuild([(tuple(pi[x] for x in e[0]), tuple(pi[x] for x in e[1])) for e in edges]), n)
+    st2, obs2 = dobserved(dbuild([(tuple(int(str(pi[x])) for x in e[0]), tuple(int(str(pi[x])) for x in e[1])) for e in edges]), n)
     if st2 != "ok" or obs2 != obs:
         ctx.violation({**case, "relabel": pi}, f"directed order-{n} census changes under the relabelling {pi}")
     es = [(tuple(r.sample(e[0], len(e[0]))), tuple(r.sample(e[1], len(e[1])))) for e in edges]
     r.shuffle(es)
-    st3, obs3 = dobserved(dbuild(es), n)
+    st3, obs3 = dobserved(dbuild(typed(es)), n)
     if st3 != "ok" or obs3 != obs:
         ctx.violation({**case, "order": es}, f"directed order-{n} census changes with the insertion order")
     small = [e for e in edges if len(e[0]) + len(e[1]) <= n]
@@ -966,7 +1174,7 @@ def check_dhg(ctx, drv, sess, case):
         k = r.randint(1, len(nodes) - 1)
         big.append((tuple(nodes[:k]), tuple(nodes[k:])))
     for name, ee in (("removing", small), ("adding", big)):
-        st4, obs4 = dobserved(dbuild(ee), n) if ee else ("ok", {})
+        st4, obs4 = dobserved(dbuild(typed(ee)), n) if ee else ("ok", {})
         if st4 != "ok" or obs4 != obs:
             ctx.violation({**case, "variant": ee}, f"directed order-{n} census changes when {name} hyperedges of size > {n}")
     brute = dbrute(E, n)
@@ -977,7 +1185,7 @@ def check_dhg(ctx, drv, sess, case):
         null_model_round(ctx, case, dobserved, h, n, obs, "directed")
     canon = {}
     for e in edges:
-        canon.setdefault(dkey(e), e)
+        canon.setdefault(dkey(e), typed([e])[0])
     lv = live_census(sess, "directed", canon, n)
     if lv is None:
         ctx.count("live_object_not_editable")
@@ -988,7 +1196,7 @@ def check_dhg(ctx, drv, sess, case):
                           f"directed order-{n} census of a DirectedHypergraph that was edited in place (remove_edge/"
                           "add_edge along the session) differs from the census of a freshly built one with the same "
                           "hyperedges" + (": " + lv[1] if lv[0] != "ok" else ""))
-    ip = impl_dpasses([e for e in E if len(e[0]) + len(e[1]) <= n], n) if case.get("passes", True) else None
+    ip = impl_dpasses([e for e in Eraw if len(e[0]) + len(e[1]) <= n], n) if case.get("passes", True) else None
     if drv is None:
         return
     univ = sorted(set(labels) | {x for e in E for x in e[0] + e[1]})
@@ -1061,11 +1269,24 @@ for i, st in enumerate(steps):
     signal.alarm(secs)
     try:
         directed = st["kind"] == "directed"
+        lab = lambda x: x
+        if st.get("np"):
+            # node ids that come out of numpy arrays: integer scalars of the listed types
+            import numpy
+            conv = {l: getattr(numpy, d)(l) for l, d in st["np"]}
+            if st.get("np_alt"):       # the same node: a numpy scalar in one hyperedge, a Python int in the next
+                turn = {}
+
+                def lab(x):
+                    turn[x] = turn.get(x, 0) + 1
+                    return conv[x] if x in conv and turn[x] % 2 else x
+            else:
+                lab = lambda x: conv.get(x, x)
         if directed:
-            edges = [(tuple(e[0]), tuple(e[1])) for e in st["edges"]]
+            edges = [(tuple(lab(x) for x in e[0]), tuple(lab(x) for x in e[1])) for e in st["edges"]]
             key = lambda e: (tuple(sorted(e[0])), tuple(sorted(e[1])))
         else:
-            edges = [tuple(e) for e in st["edges"]]
+            edges = [tuple(lab(x) for x in e) for e in st["edges"]]
             key = lambda e: tuple(sorted(e))
         h = None
         src = st.get("edit_of")
@@ -1136,15 +1357,25 @@ def ukey(e):
     return tuple(sorted(e))
 
 
-def gen_pristine(rng, p):
+def gen_pristine(rng, p, seed=0):
     """the script of one un-instrumented process: 2-4 undirected and 2-3 directed hypergraphs (related or unrelated),
     each analysed for one or both orders, censuses of one order in a row or hypergraph by hypergraph; the first
     hypergraph usually holds hyperedges of size 3 and 4; the first hypergraph is analysed again at the end"""
-    base = window(1000 + p)
+    recipe = PRISTINE_RECIPES[p % len(PRISTINE_RECIPES)]
+    style = (p + 2) % 3                  # numpy scalars: every third shape drawn in this process
+    drawn = [0]
     steps = []
 
+    def draw(gen):
+        """a new shape from the main stream, placed on labels of this process' recipe; -> (labels, edges, numpy types)"""
+        labels0, edges0 = gen(rng)
+        drawn[0] += 1
+        labels, lpool = universe(seed, f"p{p}.{drawn[0]}", recipe, len(labels0))
+        npmap = numpy_types(seed, f"p{p}.{drawn[0]}", labels, style) if (drawn[0] + p) % 3 == 2 else None
+        return labels, place(labels0, edges0, labels), npmap
+
     def pool_of(gen, mutate, key, n_graphs, full):
-        labels, edges = gen(rng, base)
+        labels, edges, npmap = draw(gen)
         if full:
             # full-size hyperedges in the first hypergraph of the process (sizes 3 and 4)
             for size in (3, 4):
@@ -1166,16 +1397,16 @@ def gen_pristine(rng, p):
                         pairs.append((v[0], v[2]))
                     for a, b in pairs:
                         edges.insert(rng.randint(0, len(edges)), (a, b) if key is ukey else ((a,), (b,)))
-        pool = [(labels, dedup(edges, key), None)]
+        pool = [(labels, dedup(edges, key), None, npmap)]
         for _ in range(n_graphs - 1):
             r = rng.random()
             if r < 0.55:
-                lab, prev, _ = pool[-1]
+                lab, prev, _, npm = pool[-1]
                 _, e2 = mutate(rng, lab, prev)
-                pool.append((lab, dedup(e2, key), len(pool) - 1 if rng.random() < 0.5 else None))
+                pool.append((lab, dedup(e2, key), len(pool) - 1 if rng.random() < 0.5 else None, npm))
             else:
-                lab, e2 = gen(rng, base if r < 0.8 else base + 20)
-                pool.append((lab, dedup(e2, key), None))
+                lab, e2, npm = draw(gen)
+                pool.append((lab, dedup(e2, key), None, npm))
         return pool
 
     def census_steps(kind, pool):
@@ -1189,8 +1420,11 @@ def gen_pristine(rng, p):
         out = []
         seen = set()
         for g, n in seq:
-            lab, edges, parent = pool[g]
+            lab, edges, parent, npm = pool[g]
             st = {"kind": kind, "n": n, "edges": edges, "labels": lab, "hid": g}
+            if npm:
+                st["np"] = npm
+                st["np_alt"] = style == 2
             if g not in seen and parent is not None and parent in seen and not by_order:
                 st["edit_of"] = parent          # the object of the previous hypergraph, edited in place
             elif rng.random() < 0.3:
@@ -1302,6 +1536,9 @@ def judge_pristine(ctx, drv, steps, recs):
             ctx.violation(case, f"un-instrumented process, call {i + 1}: {word}(h, {n}, 0) failed: {rec['exc']}")
             return i
         ctx.count("pristine_censuses")
+        count_bands(ctx, sorted({x for e in edges for x in (e[0] + e[1] if directed else e)}), "pristine")
+        if st.get("np"):
+            ctx.count("pristine_censuses_with_numpy_integer_labels")
         ctx.count(f"pristine_{st['kind']}_order{n}")
         if rec.get("edited"):
             ctx.count("pristine_censuses_of_object_edited_in_place")
@@ -1540,7 +1777,7 @@ def run(ctx):
     import random
     drv = ctx.driver() if ctx.model_available else None
     prng = random.Random(f"C11 un-instrumented processes, seed {ctx.seed}")
-    pool = Pristine([gen_pristine(prng, p) for p in range(ctx.scale(5, 72))], ctx.scale(5, 3))
+    pool = Pristine([gen_pristine(prng, p, ctx.seed) for p in range(ctx.scale(5, 72))], ctx.scale(5, 3))
     try:
         pool.pump(ctx, drv)          # the first processes run next to the main stream
         boot = Session()
@@ -1561,11 +1798,16 @@ def run_main(ctx, drv, pool):
     n_d = ctx.scale(11, 340)     # directed sessions
     raw4 = ctx.scale(1, 12)      # sessions whose order-4 steps run without the memo
     for i in range(n_u):
-        base = window(i)
-        labels, edges = gen_hg(rng, base)
+        # label universe of the session: recipe i (session 0: small labels)
+        labels0, edges0 = gen_hg(rng)
+        labels, lpool = universe(ctx.seed, f"u{i}", i, len(labels0))
+        edges = place(labels0, edges0, labels)
+        npmap = numpy_types(ctx.seed, f"u{i}", lpool, i % 3)      # for the third hypergraph of the session
+        ctx.count("undirected_sessions_over:" + recipe_name(i))
         if i == 0 and 0 not in labels:          # the falsy label takes part in every run
             edges = [tuple(0 if x == labels[0] else x for x in e) for e in edges]
             labels = [0] + labels[1:]
+            lpool = sorted(set(lpool) | {0})
         sess = Session()
         for j in range(rng.randint(3, 4)):
             if j:
@@ -1575,7 +1817,8 @@ def run_main(ctx, drv, pool):
             for n in (3, 4):
                 raw = n == 4 and i < raw4
                 run_step(ctx, drv, sess, {"kind": "undirected", "n": n, "labels": labels, "edges": edges,
-                                          "perm_seed": seed, "base": base, "memo": n == 4 and not raw,
+                                          "perm_seed": seed, "pool": lpool, "np": npmap if j == 2 else None, "np_alt": i % 3 == 2,
+                                          "memo": n == 4 and not raw,
                                           "passes": not raw or (i == 0 and j == 0), "null_model": j == 1 and i % 2 == 0})
                 if raw:
                     ctx.count("order4_cases_without_memo")
@@ -1588,8 +1831,12 @@ def run_main(ctx, drv, pool):
             break
     ctx.count("undirected_sessions", i + 1 if n_u else 0)
     for i in range(n_d):
-        base = window(n_u + i)
-        labels, edges = gen_dhg(rng, base)
+        recipe = 3 * i + 1                       # 1, 4, 7, 10, 13, 0, 3, 6, 9, 12, 15, ...
+        labels0, edges0 = gen_dhg(rng)
+        labels, lpool = universe(ctx.seed, f"d{i}", recipe, len(labels0))
+        edges = place(labels0, edges0, labels)
+        npmap = numpy_types(ctx.seed, f"d{i}", lpool, (i + 1) % 3)
+        ctx.count("directed_sessions_over:" + recipe_name(recipe))
         sess = Session()
         for j in range(rng.randint(3, 4)):
             if j:
@@ -1598,7 +1845,9 @@ def run_main(ctx, drv, pool):
             seed = rng.randrange(1 << 30)
             for n in (3, 4):
                 run_step(ctx, drv, sess, {"kind": "directed", "n": n, "labels": labels, "edges": edges,
-                                          "perm_seed": seed, "base": base, "null_model": j == 1 and i % 2 == 0})
+                                          "perm_seed": seed, "pool": lpool, "np": npmap if j == 2 else None,
+                                          "np_alt": (i + 1) % 3 == 2,
+                                          "null_model": j == 1 and i % 2 == 0})
                 if out_of_time(ctx):
                     break
             if out_of_time(ctx):
